@@ -10,6 +10,7 @@ import (
 	"os"
 	"strings"
 	"sync"
+	"sync/atomic"
 	"time"
 
 	kio "github.com/flanglet/kanzi-go/v2/io"
@@ -269,11 +270,16 @@ func guard(f func()) bool {
 	case <-done:
 		return true
 	case <-time.After(watchdogDelay):
+		atomic.AddInt32(&hangCount, 1)
 		return false
 	}
 }
 
 var watchdogDelay = 45 * time.Second
+
+// number of calls that did not return so far: after a few of them the drivers stop starting new runs
+// (every further hang would cost a full watchdog delay)
+var hangCount int32
 
 func errText(e error) string {
 	if e == nil {
@@ -448,6 +454,9 @@ func cmdRecWriter(args []string) int {
 		go func(k int) {
 			defer wg.Done()
 			defer func() { <-sem }()
+			if atomic.LoadInt32(&hangCount) >= 6 {
+				return
+			}
 			for _, c := range gens[k]() {
 				evs, sinkData := execWriterRun(c.run, c.data)
 				if c.run.Key != "" && sinkData != nil {
@@ -496,6 +505,17 @@ func enumC04(n int, seed int64, thorough bool) []func() []wcaseT {
 		gens = append(gens, func() []wcaseT {
 			base, data := planWriterRun("c04", g, seed, thorough)
 			base.W.Headerless = false
+			if g < len(transformNames) {
+				// every transform on full compressible blocks followed by a short incompressible one: accept / decline decisions
+				// that depend on buffer sizes (which depend on the slot, hence on the job count) would show
+				base.W.Transform = transformNames[g]
+				base.W.Entropy = []string{"NONE", "HUFFMAN", "ANS0"}[g%3]
+				base.W.Block = 65536
+				base.Shape = "tailrandom"
+				base.Size = 3*65536 + 20000 + 16*g
+				base.W.Hint = []int64{-1, int64(base.Size)}[g%2]
+				data = gen.Make(base.Shape, base.Seed, base.Size)
+			}
 			var out []wcaseT
 			jobsList := []uint{1, 2, 3, 4, 8, 64}
 			k := 0
